@@ -579,6 +579,70 @@ impl Property for C20 {
             }
         }
         ctx.subspace("comment pool x scalar kinds x 4 positions x option family x {plain, +SpaceAfter}; block-string pool x {LitStr, FoldStr} x 4 positions x option family x 3 wrapper stacks", total, true);
+        // (b1) a LitStr / FoldStr string below every chain of positions (the indentation indicator
+        // and the body column of a block scalar depend on the whole chain above it)
+        {
+            const LEAVES: [&str; 5] = [" lead\nsecond\n", "a\nb", "line\n", "  two blanks", "plain words that are long enough to be folded when the width is small"];
+            fn bx<T>(x: T) -> Box<T> {
+                Box::new(x)
+            }
+            fn wrap(pos: usize, t: Ty, v: DV) -> (Ty, DV) {
+                match pos {
+                    0 => (Ty::Seq(bx(t)), DV::Seq(vec![v])),
+                    1 => (Ty::Map(bx(Ty::Str), bx(t)), DV::Map(vec![(DV::Str("k".into()), v)])),
+                    2 => (Ty::Struct(vec![Ty::Int, t], false), DV::Struct(vec![DV::Int(1), v])),
+                    3 => (Ty::Enum(vec![VK::Unit, VK::New(bx(t))]), DV::Var(1, vec![v])),
+                    4 => (Ty::Enum(vec![VK::Unit, VK::St(vec![Ty::Int, t])]), DV::Var(1, vec![DV::Int(7), v])),
+                    5 => (Ty::Enum(vec![VK::Unit, VK::Tup(vec![Ty::Int, t])]), DV::Var(1, vec![DV::Int(7), v])),
+                    6 => (Ty::Tuple(vec![Ty::Int, t]), DV::Seq(vec![DV::Int(7), v])),
+                    _ => (Ty::Opt(bx(t)), DV::Some(bx(v))),
+                }
+            }
+            let mut opt_sets = vec![];
+            for indent in [2usize, 3, 4, 8] {
+                for compact in [false, true] {
+                    opt_sets.push(SerOpts { indent, compact, ..SerOpts::default() });
+                }
+            }
+            let max_len = ctx.tier.pick(3u32, 4u32);
+            let mut idx3 = 0u64;
+            for len in 1..=max_len {
+                for code in 0..8u32.pow(len) {
+                    let chain: Vec<usize> = (0..len).map(|i| ((code / 8u32.pow(i)) % 8) as usize).collect();
+                    if chain.windows(2).any(|w| w[0] == 7 && w[1] == 7) {
+                        continue;
+                    }
+                    for leaf in LEAVES.iter() {
+                        for o in opt_sets.iter() {
+                            for w in [W::Lit, W::Fold] {
+                                idx3 += 1;
+                                if !ctx.mine(idx3) {
+                                    continue;
+                                }
+                                let (mut t, mut v) = (Ty::Str, DV::Str(leaf.to_string()));
+                                for p in &chain {
+                                    let (t2, v2) = wrap(*p, t, v);
+                                    t = t2;
+                                    v = v2;
+                                }
+                                // pre-order index of the leaf
+                                let mut at = None;
+                                let mut i = 0usize;
+                                ds::walk(&t, &v, "root", &mut |_, x, _| {
+                                    if matches!(x, DV::Str(s) if s == leaf) {
+                                        at = Some(i);
+                                    }
+                                    i += 1;
+                                });
+                                let c = Case { ty: t.clone(), val: v.clone(), decor: vec![(at.unwrap_or(0), vec![w.clone()])], opts: o.clone() };
+                                ctx.case("block-wrapper-below-position-chains", &c, true);
+                            }
+                        }
+                    }
+                }
+            }
+            ctx.subspace("chains of <= 3 (thorough 4) positions from {sequence item, map value, struct field, newtype / struct / tuple variant payload, tuple item, Some} above 5 strings x {LitStr, FoldStr} x indent {2,3,4,8} x compact", idx3, true);
+        }
         // (b2) flow wrappers nested inside flow wrappers, followed by a block-style collection whose
         // items only have a block form: a hint that is not consumed where it belongs leaks to the
         // next collection (found by the thorough tier, fixed in 1f8cc1e; kept as a fixed family
